@@ -28,7 +28,7 @@ def run(ctx):
     rnd = random.Random(ctx.seed)
     plan = {'graphs': [], 'groups': [], 'traces': 30 if ctx.quick else 200, 'events': 50 if ctx.quick else 80, 'flows': 6,
             'reloads': True}
-    ct.build_graphs(ctx, ['C19_1', 'C19_2'] if ctx.quick else ['C19_1', 'C19_2', 'C19_1t'], plan, rnd, max_len=40)
+    ct.build_graphs(ctx, ['C19_1', 'C19_2', 'C19_sem'] if ctx.quick else ['C19_1', 'C19_2', 'C19_semx', 'C19_1t'], plan, rnd, max_len=40)
     ct.aswritten(ctx, 'MC_Conntrack_C19_aswritten.cfg', 'SameReloadKeeps')
     if not ctx.quick:
         ctx.tlc('Conntrack', 'MC_Conntrack_C19_2t.cfg', timeout=1500)
@@ -40,7 +40,8 @@ def run(ctx):
     res = ctx.gotest('.', 'TestVerif_C19', also=('ct',))
     ctx.take_mismatches(res)
     ct.validate(ctx, res, plan, 'C19', idle_matters=False)
-    ctx.require_actions('Pkt', 'Reload', 'R:tour', 'R:twin', 'R:map:distinct', 'T:Pkt', 'T:Reload', 'T:Reload-same',
+    ctx.require_actions('Pkt', 'Reload', 'ReloadCfg', 'R:tour', 'R:twin', 'R:twin-option-flip', 'R:map:distinct', 'R:map:proto-only', 'R:map:unsafe-local',
+                        'T:Reload-option-flip', 'T:Pkt', 'T:Reload', 'T:Reload-same',
                         'T:Reload-noop', 'T:Reload-wrap', 'T:pass', 'T:drop')
     left = ctx.actions.get('R:left-tour', 0)
     ctx.extra['tours_left_early'] = left
